@@ -141,6 +141,48 @@ impl Observer for SizeMonitor {
     }
 }
 
+/// Frames that keep arriving after the connection sent a DISCONNECT / requested the close (the peer pipelined them, or they
+/// were in the same read buffer): the announced limit stays in force until the transport is reported closed, so an oversize
+/// frame is still not delivered. Run with `strict_close = false`.
+pub struct LateInbound {
+    pub late_oversize: u64,
+}
+
+impl Observer for LateInbound {
+    fn on_step(&mut self, _w: &World, pre: &Tracker, _pa: &App, st: &Step) -> R {
+        if st.panic.is_some() || pre.v != Some(V::V5) {
+            return Ok(());
+        }
+        if let (Call::Recv { bytes, ap: Some(ap) }, Some(own)) = (&st.call, pre.mps_recv) {
+            let late = pre.close_requested || pre.status == St::Disconnected;
+            if st.calls.len() == 1 && late && !pre.closed_reported && bytes.len() > own as usize && !matches!(ap, AP::Connect { .. }) {
+                self.late_oversize += 1;
+                if !st.recvs().is_empty() {
+                    return Err(fail(
+                        "C14.inbound_oversize_delivered",
+                        format!("late/{}", ap.kind_name()),
+                        format!("a {}-byte {} arriving after the close request (transport not yet reported closed) was delivered although the announced Maximum Packet Size is {own}", bytes.len(), ap.kind_name()),
+                    ));
+                }
+            }
+        }
+        Ok(())
+    }
+}
+
+pub fn test_late(h: &History, st: &mut Stats) -> R {
+    let mut m = LateInbound { late_oversize: 0 };
+    let (_w, out, r) = run_history_mode(h, &mut [&mut m], false);
+    count_outcome(&out, st);
+    r?;
+    if m.late_oversize > 0 {
+        st.class("late_inbound_oversize");
+        st.nontrivial(&(h.cfg, &h.ops));
+        st.sample(|| json!({"cfg": cfg_sig(&h.cfg), "ops": h.ops.len(), "oversize_frames_after_close_request": m.late_oversize}));
+    }
+    Ok(())
+}
+
 pub fn profile() -> Profile {
     let mut p = Profile::general();
     p.publish = 14;
@@ -224,15 +266,22 @@ pub fn run(ctx: &Ctx) -> Report {
     let n = ctx.tier.pick(400_000, 2_000_000);
     let (st, v) = search(ctx, "c14.history", n, strategy, test);
     rep.absorb("histories", st, v, false);
+    // the same histories with the peer's frames still arriving after a DISCONNECT was sent / the close was requested
+    let n2 = ctx.tier.pick(150_000, 1_000_000);
+    let (st, v) = search(ctx, "c14.late", n2, strategy, test_late);
+    rep.absorb("late_frames", st, v, false);
     rep.assumptions.push("the limit in force is the one the harness itself put into the peer's CONNECT/CONNACK; DISCONNECT 0x95 is only required on an established connection and when it fits the peer's own limit".into());
     rep
 }
 
 pub fn replay(check: &str, case: &serde_json::Value) -> Option<R> {
-    if check != "c14.history" {
+    if check != "c14.history" && check != "c14.late" {
         return None;
     }
     let h: History = serde_json::from_value(case.clone()).ok()?;
     let mut st = Stats::default();
+    if check == "c14.late" {
+        return Some(test_late(&h, &mut st));
+    }
     Some(test(&h, &mut st))
 }
